@@ -107,7 +107,9 @@ BigRecv == LET ua(t, n) == [t |-> t, rsv |-> 0, v |-> D(n, t), pad |-> << >>] IN
 OtherRecv ==
   LET ua(t, v) == [t |-> t, rsv |-> 0, v |-> v, pad |-> << >>]
       pk(id, sub, attrs) == [code |-> 1, id |-> id, m |-> "aka", sub |-> sub, rsv |-> 0, attrs |-> attrs]
-      wide(t, n, extra) == [t |-> t, rsv |-> 8 * n, v |-> D(n, 60 + t), pad |-> Zeros(PadTo4(4 + n) + extra)] IN
+      wide(t, n, extra) == [t |-> t, rsv |-> 8 * n, v |-> D(n, 60 + t), pad |-> Zeros(PadTo4(4 + n) + extra)]
+      \* a value whose length in BITS is no multiple of 8 (RFC 4187 10.8: "length of the AT_RES attribute in bits"): the last octet is used in part
+      bits(t, n, k) == [t |-> t, rsv |-> 8 * n - k, v |-> D(n - 1, 60 + t) \o << 128 >>, pad |-> Zeros(PadTo4(4 + n))] IN
   << << pk(80, 12, << AkaAttrPlain(AV(AT_MAC, 16)), ua(12, << 128, 0 >>) >>), "recv-other" >>,
      << pk(81, 12, << AkaAttrPlain(AV(AT_MAC, 16)), ua(12, << 0, 0 >>) >>), "recv-other" >>,
      << pk(82, 14, << AkaAttrPlain(AV(AT_MAC, 16)), ua(22, << 0, 1 >>) >>), "recv-other" >>,
@@ -115,6 +117,9 @@ OtherRecv ==
      << pk(84, 13, << AkaAttrPlain(AV(AT_MAC, 16)), ua(19, << 0, 7 >>), ua(21, D(18, 6)) >>), "recv-other" >>,
      << pk(85, 1, << wide(AT_RES, 8, 4), AkaAttrPlain(AV(AT_MAC, 16)) >>), "recv-widepad" >>,
      << pk(86, 1, << wide(AT_RES, 5, 8), AkaAttrPlain(AV(AT_MAC, 16)) >>), "recv-widepad" >>,
+     << pk(88, 1, << bits(AT_RES, 5, 7), AkaAttrPlain(AV(AT_MAC, 16)) >>), "recv-bits" >>,
+     << pk(89, 1, << bits(AT_RES, 8, 1), AkaAttrPlain(AV(AT_MAC, 16)) >>), "recv-bits" >>,
+     << pk(90, 1, << AkaAttrPlain(AV(AT_RAND, 16)), AkaAttrPlain(AV(AT_AUTN, 16)), AkaAttrPlain(AV(AT_MAC, 16)), bits(AT_KDF_INPUT, 11, 3), AkaAttrPlain([t |-> AT_KDF, v |-> << 0, 1 >>]) >>), "recv-bits" >>,
      << pk(87, 1, << AkaAttrPlain(AV(AT_RAND, 16)), AkaAttrPlain(AV(AT_AUTN, 16)), AkaAttrPlain(AV(AT_MAC, 16)), wide(AT_KDF_INPUT, 7, 4), AkaAttrPlain([t |-> AT_KDF, v |-> << 0, 1 >>]) >>), "recv-widepad" >> >>
 ReceiverSeq == SetToSeqAny(ReceiverSet) \o << << BigRecv, "recv-big" >> >> \o OtherRecv
 
